@@ -24,6 +24,10 @@ def main(argv):
     try:
         res = rb.record_domain(inputs, d, jobs=args.jobs, shards=args.jobs, stages=True, heavy=70)
         out = explore(res, args.jobs)
+        if not args.replay:
+            from . import designfam
+
+            designfam.attach_walk(rep, PROP, args.tier, d, args.jobs)
     finally:
         tlc.cleanup(d)
     for v in out["viol"]:
